@@ -294,7 +294,23 @@ def run(res):
             if rep_bad <= 3:
                 res.violation("failing-input", "`%s` writes the counting method %d time(s) and op(..) %d time(s); on the passing path they are "
                               "evaluated %d and %d time(s)" % (c["pattern"], w_meth, w_oper, r["meth"], r["oper"]), {"program_body": c["body"], "real": r})
-    res.streams["repeated-chains"] = {"cases": len(rep_cases), "failures": rep_bad}
+    # the model's trace for the repeated chains it can express (the synchronous counting method, no op(..) wrapper): exec(expand)
+    # must count what the real counters count
+    mrep = [c for c in rep_cases if "abump" not in c["pattern"] and "op(" not in c["pattern"]]
+    mmac = maclib.run_mac(["v, " + c["pattern"] for c in mrep], mode="parse")
+    mreq = []
+    for c, m in zip(mrep, mmac):
+        f = m.split("\t")
+        if f[0] != "ok":
+            raise vlib.CheckError("the real parser rejects %s: %s" % (c["pattern"], m[:200]))
+        mreq.append("sem\t()\t(%s)\t%s\t%s\t%s" % (hx("None"), W_MODEL, f[1], f[2]))
+    rep_model_dis = 0
+    for c, l in zip(mrep, vlib.run_model(mreq)):
+        m = semstage.parse_sem_line(l)
+        if m["exec"] is None or m["trace"]["method"] != real[c["id"]]["meth"] or (m["exec"] == []) != (real[c["id"]]["verdict"] == "pass"):
+            rep_model_dis += 1
+            dis += 1
+    res.streams["repeated-chains"] = {"cases": len(rep_cases), "failures": rep_bad, "compared_with_the_model_trace": len(mrep), "model_disagreements": rep_model_dis}
     for cls in sorted(known_seen):
         if cls in kf:
             res.known.append(CLASS_TEXT[cls])
